@@ -11,6 +11,7 @@
   `__init__` (translated `read_pdb`, `_create_table`, `_fix_chainID` inside) IS the model's construction, option included.
 -/
 import PdbVerif.Proofs.GenParseCall
+import PdbVerif.Proofs.GenParseCallClosed
 
 namespace Props.C15K
 open Py Proofs.GenParse
@@ -40,6 +41,15 @@ theorem genp_call_eq_derive : type_of% @Proofs.GenParse.genp_call_eq_derive := @
     file system, input form, table name and option value, exceptions inside the equation -/
 theorem genp_init_eq_model : type_of% @Proofs.GenParse.genp_init_eq_model := @Proofs.GenParse.genp_init_eq_model
 
+/-- **`db(**kw)` with NO parameter left**: translated `__call__` over fxTie's translated `sql2pdb` (`GenF.sql2pdb`) over `Model.get`
+    (`modelGet`) = `Model.derive Model.textRoundtrip w (.deriveSub k kw)`; `hget`: `get` of all columns returns the exported atoms -/
+theorem genp_call_closed : type_of% @Proofs.GenParse.genp_call_closed := @Proofs.GenParse.genp_call_closed
+/-- `hget` holds on well-formed single-model databases, for keywords that name columns, without over-long lists -/
+theorem modelGet_all_columns : type_of% @Proofs.GenParse.modelGet_all_columns := @Proofs.GenParse.modelGet_all_columns
+/-- **the same with `hget` discharged**: for every world, object `k` and keyword dictionary under the well-formedness hypotheses of
+    Props/C15 (`export_is_selection`) and the export / parse-succeed hypotheses -/
+theorem genp_call_closed_wf : type_of% @Proofs.GenParse.genp_call_closed_wf := @Proofs.GenParse.genp_call_closed_wf
+
 /-! ### non-vacuity -/
 
 def exAtom (serial : Int) (chain : String) : Py.Atom :=
@@ -62,6 +72,14 @@ example : (asObj (GenP.call (toFS (fun _ => none)) (exObj.db.tabs.map (·.name))
 example : (Model.derive Model.textRoundtrip [exObj] (.deriveSub 0 exKw)).toOption.map
     (fun o => o.db.tabs.map (fun t => (t.name, t.rows.map (fun r => r.atom.serial)))) = some [("ATOM".toList, [1, 3])] := by decide +kernel
 example : clean "ATOM".toList = "ATOM".toList := by decide +kernel
+
+/-- the closed form on the same object and selection: translated `__call__` over translated `sql2pdb` over `Model.get`, nothing
+    supplied from outside, is the model's derived database -/
+example : (asObj (GenP.call (toFS (fun _ => none)) (exObj.db.tabs.map (·.name))
+      (fun tn => GenF.sql2pdb (modelGet exObj.db) tn exKw))).toOption.map (·.db) =
+    (Model.derive Model.textRoundtrip [exObj] (.deriveSub 0 exKw)).toOption.map (·.db) := by decide +kernel
+/-- … and its `hget` holds there: `get` of all columns returns the two exported atoms -/
+example : modelGet exObj.db Proofs.GenFx.sql2pdbCols "ATOM".toList exKw = .ok [exAtom 1 "X", exAtom 3 "X"] := by decide +kernel
 
 /-- `__init__` with the option on chains X, B, X: the constructed database holds chains B, A, B -/
 example : (asDb (GenP.init (toFS (fun _ => none)) (.listStr [l1X, l1B, l1X]) "atom".toList true)).toOption.map
